@@ -285,7 +285,6 @@ func usedKeys(run *Run) []string {
 	return out
 }
 
-
 var (
 	reDelete  = regexp.MustCompile(`delete\(raw, "([^"]+)"\)`)
 	reAssign  = regexp.MustCompile(`raw\["([^"]+)"\](?:, _)? =`)
